@@ -280,7 +280,7 @@ func checkPrefix(c *caseOut, h *History, cfg config.Blockchain, nb int, accepted
 		bc.Close()
 	}()
 	hh := bc.BlockHeight()
-	c.cnt.count(fmt.Sprintf("%srecovered:behind-accepted-by-%s", tag, bucket(int(accepted)-int(hh))))
+	c.cnt.count(fmt.Sprintf("%srecovered:blocks-behind-tip-%s", tag, bucket(int(h.N())-int(hh))))
 	if hh > accepted {
 		c.fail(tag+"height-above-accepted", "prefix %d: recovered height %d > last accepted block %d", k, hh, accepted)
 		return
